@@ -18,7 +18,8 @@ EVIDENCE = dict(
          "descriptions (older version stamps, absent BVER, extreme field values), the TLV joiner makes bytes, the real reader "
          "loads them. MC_RVFormat checks Unknown (insertion invariance) and RW on the bounded model. "
          "non-trivial = an edited or reference-encoded file."
-         " Further edits: a data block with a number the module type does not use (CHNM/CHDT/CHFF/CHFR) in front of SEND and in front of the first known block; the module record carries the six sub-fields of the SVPR word (RVFormat!VisF); deterministic boundary sources (waveform -128, sampler slot 127, background transparency different from shadow opacity).",
+         " Further edits: a data block with a number the module type does not use (CHNM/CHDT/CHFF/CHFR) in front of SEND and in front of the first known block; the module record carries the six sub-fields of the SVPR word (RVFormat!VisF); deterministic boundary sources (waveform -128, sampler slot 127, background transparency different from shadow opacity)."
+         " The deterministic boundary projects are also encoded by the spec (Write) and loaded by the real reader.",
     explanation="the oracle is the spec's decoder, never the library's writer")
 
 JUNK_IDS = ["XxXx", "zzzz", "ABCD"]
